@@ -44,6 +44,14 @@ VERUS = {
     # ext_need(|lhs|) = 2 (|lhs| + 1) + gneed(ceil(|lhs| / 2)) Words suffice (cofactor buffers, every Euclidean division, every
     # cofactor product: at most |lhs| + 1 result words by the value invariant).  One long query (~20 s, 2.6e8 rlimit units)
     'int_memsize_gcd_ext': {'file': 'int_memsize_gcd_ext.rs', 'w32': True, 'rlimit': 300},
+    # lehmer::memory_requirement_ext_up_to (as repaired by 914fd28), gcd::memory_requirement_ext_exact, gcd::gcd_ext_in_place:
+    # the Layout provides ext_need(lhs_len) Words = the kernel's precondition (FAILED before the repair: defect MEM2)
+    'int_memsize_gcd_ext_ops': {'file': 'int_memsize_gcd_ext_ops.rs', 'w32': True},
+    # modular/div.rs inv_large (functional + resource): allocation from memory_requirement_ext_exact => kernel precondition
+    'int_memsize_moddiv': {'file': 'int_memsize_moddiv.rs', 'w32': True},
+    # gcd_ops.rs gcd_ext_large (functional + resource): ONE allocation clones + max(gcd_mem, post_mem) covers clones, kernel,
+    # residue (possibly one Word longer than reserved: lemma_mn_ext_large_room + lemma_mn_slack), product and exact division
+    'int_memsize_gcd_ext_large': {'file': 'int_memsize_gcd_ext_large.rs', 'w32': True, 'rlimit': 200},
 }
 
 _K = 'kani/harness/int_memsize_model.rs'
@@ -79,7 +87,7 @@ _UNDECIDED = [
     'scratch sizing is decided for multiplication / squaring (mul_ops.rs mul_large, square_large down to the kernels) and '
     'for division (div_ops.rs div_rem_in_lhs down to divide_conquer.rs) and for the gcd kernel lehmer::gcd_in_place; the '
     'gcd_ext / modular / pow / root / div_const / gcd_ops ext callers of memory_requirement_* still see an opaque Memory.  Two GENUINE DEFECTS were found there while '
-    'writing the gcd contracts: MEM1 (UBig::gcd, repaired in 1d55bba) and MEM2 (modular inverse, proposed_fixes/MEM2)',
+    'writing the gcd contracts, both repaired since: MEM1 (UBig::gcd, 1d55bba) and MEM2 (modular inverse, 914fd28)',
     'div_rem_in_place_small_quotient and div_rem_unshifted_in_place are verified up to their last use of `memory` only '
     '(rule D20u: the value-dependent tails do not mention `memory`; they are proved in int_div_dc / int_div_ops)',
     'the capacity-tracking model lib/mem_model.rs is trusted (raw-pointer code of memory.rs; backed by the Kani group '
@@ -94,11 +102,12 @@ PROP_UNITS = {
             'undecided': _UNDECIDED},
     # division: the resource clause of "a = q b + r ... for operands of every size class" / panic freedom of `/`, `%`
     'C02': {'verus': ['int_memsize_div', 'int_memsize_div_ops'], 'kani': ['int_memsize_model'], 'undecided': _UNDECIDED},
-    'C12': {'verus': ['int_memsize_gcd', 'int_memsize_gcd_ops', 'int_memsize_gcd_ext'],
-            'undecided': ['scratch sizing of the EXTENDED gcd by its callers (lehmer::memory_requirement_ext_up_to, used by gcd_ops.rs '
-                          'gcd_ext_large and modular/div.rs inv_large): the kernel needs ext_need(|lhs|) (int_memsize_gcd_ext) but the '
-                          'function reserves gneed(FLOOR(lhs_len / 2)) for the products: VIOLATED on the tree (proposed_fixes/MEM2; '
-                          'ConstDivisor::new(2^3072 + 12345 * 2^1536 + 3).reduce(2^1536 + 12345).inv() panics); unit '
-                          'int_memsize_gcd_ext_ops (not registered) verifies the sizing functions on a tree with that repair']},
+    'C12': {'verus': ['int_memsize_gcd', 'int_memsize_gcd_ops', 'int_memsize_gcd_ext', 'int_memsize_gcd_ext_ops',
+                      'int_memsize_gcd_ext_large'],
+            'undecided': ['gcd_ops.rs gcd_ext_large_dword / gcd_large_dword and the small arms use no scratch memory; root.rs '
+                          'sqrt_rem (memory_requirement_sqrt_rem) still sees an opaque Memory']},
+    'C13': {'verus': ['int_memsize_moddiv'],
+            'undecided': ['scratch sizing of modular multiplication / powering (modular/mul.rs mul_memory_requirement, '
+                          'modular/pow.rs): opaque Memory there']},
     'C16': {'kani': ['int_memsize_model'], 'undecided': _UNDECIDED},
 }
